@@ -1,12 +1,12 @@
 SPECIFICATION Spec
 CONSTANTS
   Procs = {1}
-  MaxRev = 6
-  MaxOps = 2
-  MaxFaults = 0
+  MaxRev = 8
+  MaxOps = 3
+  MaxFaults = 1
   MaxCrash = 0
-  MaxEdits = 0
-  FaultKinds = {}
+  MaxEdits = 1
+  FaultKinds = {"res"}
   Sequential = TRUE
   Planned = FALSE
   MaxPlan = 36
@@ -14,7 +14,7 @@ CONSTANTS
   LogSched = FALSE
   KeepLog = TRUE
   OpMenu <- XOwn
-  EditMenu <- EditsNone
+  EditMenu <- EditsNew
   PreMenu <- PreOwnX
   Objs <- AllObjs
   MenuGuard <- GuardTrue
